@@ -13,7 +13,8 @@ import (
 
 var Harnesses = map[string]func(){
 	"H_Codec":  H_Codec,
-	"H_Stores": H_Stores,
+	"H_Stores":  H_Stores,
+	"H_Layered": H_Layered,
 }
 
 func hexPath(name string, maxLen int) []byte {
@@ -163,4 +164,66 @@ func H_Stores() {
 	t2 := mptlib.NewTrie(db, version, t.GetRoot())
 	vp.NoPanic("C14.nopanic", func() { mptlib.CheckContent("C14.reopen", t2, ref) })
 	vp.Cover("C14.stores.done")
+}
+
+// H_Layered: a saved state in a base store, then a fresh trie (fresh cache) over a layered
+// store on top of it performs k operations. The base store must still hold every node
+// under the hash of its own content and read back the saved content at the saved root;
+// the upper level is audited too.
+func H_Layered() {
+	seed := vp.Param("seed", 3)
+	k := vp.Param("k", 1)
+	alpha := mptlib.Alphabet(vp.Param("alpha", 2))
+	lmax := vp.Param("lmax", 4)
+	version := vp.Int64("version")
+	base := util.NewMemoryNodeDB()
+	t0 := mptlib.NewTrie(base, version, nil)
+	ref0 := mptlib.NewRef()
+	mptlib.ApplySeed(t0, ref0, seed)
+	root0 := mptlib.Cp(t0.GetRoot())
+	v2 := version
+	if vp.Choose("other-version", 2) == 1 {
+		v2 = vp.Int64("version2")
+		vp.Assume(v2 != version)
+	}
+	lndb := util.NewLevelNodeDB(util.NewMemoryNodeDB(), base, false)
+	t1 := mptlib.NewTrie(lndb, v2, root0)
+	ref1 := ref0.Clone()
+	for i := 0; i < k; i++ {
+		p := mptlib.GenPath("p", alpha, lmax)
+		if vp.Choose("op", 2) == 0 {
+			v := mptlib.GenValue("v", 1)
+			if vp.NoPanic("C14.nopanic", func() { t1.Insert(util.Path(mptlib.Cp(p)), mptlib.Val(v)) }) {
+				return
+			}
+			ref1.Put(p, v)
+		} else {
+			var err error
+			if vp.NoPanic("C14.nopanic", func() { _, err = t1.Delete(util.Path(mptlib.Cp(p))) }) {
+				return
+			}
+			if err == nil {
+				ref1.Del(p)
+			}
+		}
+	}
+	audit := func(lbl string, db util.NodeDB) bool {
+		var ierr error
+		pan := vp.NoPanic("C14.nopanic", func() {
+			ierr = db.Iterate(context.TODO(), func(ctx context.Context, key util.Key, node util.Node) error {
+				vp.Assert(lbl+".key-is-own-hash", bytes.Equal(key, node.GetHashBytes()))
+				roundTrip(lbl, node)
+				return nil
+			})
+		})
+		vp.Assert(lbl+".iterate-ok", ierr == nil)
+		return !pan
+	}
+	if !audit("C14.base", base) || !audit("C14.level", lndb.GetCurrent()) {
+		return
+	}
+	// the saved state recomputes to its root and reads its content from the base store alone
+	vp.NoPanic("C14.nopanic", func() { mptlib.CheckContent("C14.base-reopen", mptlib.NewTrie(base, version, root0), ref0) })
+	vp.NoPanic("C14.nopanic", func() { mptlib.CheckContent("C14.level-view", t1, ref1) })
+	vp.Cover("C14.layered.done")
 }
